@@ -875,14 +875,19 @@ def _corpus(model, extra):
     from native.witnesses import models, optimise
 
     trait = extra["trait"]
-    traits = [] if trait == "none" else [trait]
+    base = [] if trait == "none" else [trait]
+    selections = [base]
+    if extra.get("tier") == "thorough":
+        # deeper: the trait together with each other trait, the default selection and all traits
+        selections += [sorted(set(base + [t])) for t in TRAITS if t not in base] + [[t for t in TRAITS if t != "duplication"], list(TRAITS)]
     problems = []
     n = 0
-    for prg, factsets in CORPUS[trait]:
+    for prg, factsets in [(p_, f_) for p_, f_ in CORPUS[trait]] * 1:
+      for traits in selections:
         try:
             new = optimise(prg, traits)
         except Exception as e:  # pylint: disable=broad-except
-            problems.append({"program": prg, "exception": repr(e)})
+            problems.append({"program": prg, "traits": traits, "exception": repr(e)})
             continue
         for facts in factsets:
             n += 1
@@ -893,9 +898,9 @@ def _corpus(model, extra):
                 problems.append({"program": prg, "facts": facts, "optimised": new, "error": "the result does not ground: " + repr(e)})
                 break
             if a != b:
-                problems.append({"program": prg, "facts": facts, "optimised": new, "source_answer_sets": len(a), "result_answer_sets": len(b), "first_difference": [x for x in a if x not in b][:1] + [x for x in b if x not in a][:1]})
+                problems.append({"program": prg, "traits": traits, "facts": facts, "optimised": new, "source_answer_sets": len(a), "result_answer_sets": len(b), "first_difference": [x for x in a if x not in b][:1] + [x for x in b if x not in a][:1]})
                 break
-    return {"confirmed": bool(problems), "bounded": True, "bound": f"{n} program/instance pairs of native/corpus.py[{trait}]", "problems": problems[:2]}
+    return {"confirmed": bool(problems), "bounded": True, "bound": f"{n} (program, instance, trait selection) triples of native/corpus.py[{trait}] ({len(selections)} trait selections)", "problems": problems[:2]}
 
 
 @mirror("verify_enable_bounded")
